@@ -4,25 +4,30 @@ import GscribModel.Lemmas.DirectWrite
 Property theorems only.  The model is the transition system `Model/DirectWrite.lean`
 (`PrintrunWriter.write` split into `clear ack; enqueue; wait; raise stored error`, the connect
 handshake, printcore's reader / print / sender threads, a device answering every command with status
-lines and one terminal reply after any delay, connection loss).  A *schedule* is any `List Act`;
-`run {} acts = some s` says that `acts` is an execution from the moment the port was opened.
-Helper lemmas and invariants: `Lemmas/DirectWrite.lean`.
+lines and one terminal reply after any delay and pushing surplus `ok` / unsolicited error lines at any
+time, connection loss).  A *schedule* is any `List Act`; `run {} acts = some s` says that `acts` is an
+execution from the moment the port was opened.  Helper lemmas and invariants: `Lemmas/DirectWrite.lean`.
 
-The one hypothesis that is not discharged is `s.backlog = false`: when `startprint` ran, no command sent
-before (a connect probe) was still unanswered.  It holds whenever a single probe was sent and the device
-emitted no "T:" report (`C16_single_probe_no_backlog`); a run violating it is the finding
-`C16-handshake-backlog`, exhibited by the `decide` witness at the end of the file. -/
+Two hypotheses are not discharged, both ghost flags written by the model at a structural point:
+* `s.backlog = false` - when `startprint` ran, no command sent before (a connect probe) was still
+  unanswered (finding `C16-handshake-backlog`);
+* `s.surplusHit = false` - no flag-setting line that is nobody's terminal reply (the `ok` after an
+  `Error:` line, a spurious `ok`, an unsolicited alarm) was read while `connect()` awaited a reset or
+  while a `write()` had cleared the flag and not yet read its own reply (finding `C16-surplus-reply`).
+Both hold when a single probe was sent and the device emitted neither a "T:" report nor such lines
+(`C16_single_probe_clean`); runs violating them are the `decide` witnesses at the end of the file.
+A surplus line read *between* two `write()` calls is harmless - that case is covered by the theorems. -/
 open GscribModel.DirectWrite
 
-/-- **Order, once, unmodified** (every schedule, including stale acknowledgements and connection loss):
-    the user statements in the device's receive log are exactly statements `0 … m-1` in call order, each
-    once (payloads are opaque to the model), and everything queued so far is, in order, in the log, on
-    the wire or still in the priority queue. -/
+/-- **Order, once, unmodified** (every schedule, including stale acknowledgements, surplus lines and
+    connection loss): the user statements in the device's receive log are exactly statements `0 … m-1` in
+    call order, each once (payloads are opaque to the model), and everything queued so far is, in order,
+    in the log, on the wire or still in the priority queue. -/
 theorem C16_order_once (acts : List Act) (s : St) (hr : run {} acts = some s) :
     stmtIds s.devLog = List.range (stmtIds s.devLog).length
     ∧ (stmtIds s.devLog).length ≤ s.next
     ∧ stmtIds (s.devLog ++ s.toDev ++ s.priq) = List.range s.next := by
-  have ho := (inv_run acts {} s orderInv_init sinv_init hr).1
+  have ho := (inv_run acts {} s orderInv_init wireInv_init sinv_init hr).1
   have h := ho.ids
   rw [List.append_assoc, stmtIds_append] at h
   exact ⟨(range_prefix h).1, (range_prefix h).2, ho.ids⟩
@@ -33,89 +38,144 @@ theorem C16_order_once (acts : List Act) (s : St) (hr : run {} acts = some s) :
     the device emitted for statement k itself - or the connection was lost and `write k` raised.
     Every interleaving of caller (4 steps per `write`), sender, reader and device. -/
 theorem C16_sync_partial (s₀ : St) (hc : ConnectedIdle s₀) (hn : ¬StaleAck s₀) (hw : WireInv s₀)
-    (acts : List Act) (s : St) (hr : run s₀ acts = some s) (hb : s.backlog = false) :
+    (acts : List Act) (s : St) (hr : run s₀ acts = some s) (hb : s.backlog = false) (hsp : s.surplusHit = false) :
     ∀ p ∈ s.outcomes, (Cmd.stmt p.1 ∈ s.heard ∧ Cmd.stmt p.1 ∈ s.devLog) ∨ (s.lost = true ∧ p.2 = true) := by
-  have hi := (inv_run acts s₀ s hc.2.2.2.2.2.2.2.2.2.2 (sinv_of_connectedIdle hc hn) hr).2
-  have hwi := wireInv_run acts s₀ s hw hr
+  obtain ⟨_, hwi, hi⟩ := inv_run acts s₀ s hc.2.2.2.2.2.2.2.2.2.2 hw (sinv_of_connectedIdle hc hn) hr
   intro p hp
-  rcases (hi.2 hb).1 p hp with h | h
+  rcases (hi.2 hb hsp).1 p hp with h | h
   · exact Or.inl ⟨h.1, hwi.2 _ h.1⟩
   · exact Or.inr h
 
 /-- **Synchronous delivery from the opening of the port**: for every schedule of the connect handshake
-    and of the writes, if no command was unanswered when `startprint` ran, `write k` completes only after
-    the terminal reply to statement k (or raises after a connection loss). -/
-theorem C16_sync (acts : List Act) (s : St) (hr : run {} acts = some s) (hb : s.backlog = false) :
+    and of the writes, `write k` completes only after the terminal reply to statement k (or raises after a
+    connection loss). -/
+theorem C16_sync (acts : List Act) (s : St) (hr : run {} acts = some s) (hb : s.backlog = false)
+    (hsp : s.surplusHit = false) :
     ∀ p ∈ s.outcomes, (Cmd.stmt p.1 ∈ s.heard ∧ Cmd.stmt p.1 ∈ s.devLog) ∨ (s.lost = true ∧ p.2 = true) := by
-  have hi := (inv_run acts {} s orderInv_init sinv_init hr).2
-  have hwi := wireInv_run acts {} s wireInv_init hr
+  obtain ⟨_, hwi, hi⟩ := inv_run acts {} s orderInv_init wireInv_init sinv_init hr
   intro p hp
-  rcases (hi.2 hb).1 p hp with h | h
+  rcases (hi.2 hb hsp).1 p hp with h | h
   · exact Or.inl ⟨h.1, hwi.2 _ h.1⟩
   · exact Or.inr h
 
-/-- **A single answered probe leaves no backlog**: if the reader sent one `G4 P0` only and the device
-    never emitted a line containing "T:", `startprint` ran with nothing unanswered. -/
-theorem C16_single_probe_no_backlog (acts : List Act) (s : St) (hr : run {} acts = some s)
-    (hnt : ∀ a ∈ acts, a.noTemp = true) (hp : s.probes ≤ 1) : s.backlog = false := by
+/-- **The ordinary handshake is clean**: if the reader sent one `G4 P0` only and the device never emitted
+    a line containing "T:" nor a surplus `ok` / unsolicited error line, both hypotheses hold. -/
+theorem C16_single_probe_clean (acts : List Act) (s : St) (hr : run {} acts = some s)
+    (hnt : ∀ a ∈ acts, a.noTemp = true) (hp : s.probes ≤ 1) : s.backlog = false ∧ s.surplusHit = false := by
   have hj := jInv_run acts {} s hnt jInv_init hr
+  have hpi := pInv_run acts {} s hnt pInv_init hr
+  refine ⟨?_, hpi.2.2⟩
   by_cases hw : s.cphase = .waitOnline
   · exact (hj.1 hw).2.2.2.1
   · exact (hj.2 hw).2 hp
 
-/-- `C16_sync` without the backlog hypothesis for the ordinary handshake (one probe, no "T:" report). -/
+/-- `C16_sync` without hypotheses on ghost flags for the ordinary handshake. -/
 theorem C16_sync_single_probe (acts : List Act) (s : St) (hr : run {} acts = some s)
     (hnt : ∀ a ∈ acts, a.noTemp = true) (hp : s.probes ≤ 1) :
     ∀ p ∈ s.outcomes, (Cmd.stmt p.1 ∈ s.heard ∧ Cmd.stmt p.1 ∈ s.devLog) ∨ (s.lost = true ∧ p.2 = true) :=
-  C16_sync acts s hr (C16_single_probe_no_backlog acts s hr hnt hp)
+  C16_sync acts s hr (C16_single_probe_clean acts s hr hnt hp).1 (C16_single_probe_clean acts s hr hnt hp).2
 
 /-- **Errors surface**: if the device answered statement k with `error…|alarm…|!!…`, `write k` raised
     `DeviceError`. -/
-theorem C16_error_surfaces (acts : List Act) (s : St) (hr : run {} acts = some s) (hb : s.backlog = false) :
+theorem C16_error_surfaces (acts : List Act) (s : St) (hr : run {} acts = some s) (hb : s.backlog = false)
+    (hsp : s.surplusHit = false) :
     ∀ p ∈ s.outcomes, Cmd.stmt p.1 ∈ s.devBad → p.2 = true := by
-  have hi := (inv_run acts {} s orderInv_init sinv_init hr).2
+  have hi := (inv_run acts {} s orderInv_init wireInv_init sinv_init hr).2.2
   intro p hp hbad
-  rcases (hi.2 hb).1 p hp with h | h
-  · exact h.2.2 hbad
+  rcases (hi.2 hb hsp).1 p hp with h | h
+  · exact h.2.1 hbad
   · exact h.2
 
-/-- **No spurious error**: a `write k` that raised had an error reply to statement k, or the connection
-    was lost. -/
-theorem C16_no_spurious_error (acts : List Act) (s : St) (hr : run {} acts = some s) (hb : s.backlog = false) :
-    ∀ p ∈ s.outcomes, p.2 = true → Cmd.stmt p.1 ∈ s.devBad ∨ s.lost = true := by
-  have hi := (inv_run acts {} s orderInv_init sinv_init hr).2
+/-- **Unsolicited error lines surface** (every schedule, no hypothesis): once the reader has processed an
+    error line - the reply to a statement or a line the device pushed on its own, e.g. an alarm after the
+    move was acknowledged - the error stays stored and the writer alive until a call raises it: the next
+    `write()` to finish records `raised`, and `disconnect(wait=True)` cannot finish normally before. -/
+theorem C16_unsolicited_error_surfaces (acts : List Act) (s : St) (hr : run {} acts = some s)
+    (hd : s.dueErr = true) :
+    s.err = true ∧ s.cphase ≠ .disconnected ∧ s.cphase ≠ .failed
+    ∧ (∀ s', step s .wFinish = some s' → ∃ k, s'.outcomes = s.outcomes ++ [(k, true)])
+    ∧ (∀ s', step s .cDisc = some s' → s'.discRaised = true) := by
+  obtain ⟨he, hh⟩ := eInv_run acts {} s eInv_init hr hd
+  simp only [halted, Bool.or_eq_false_iff, beq_eq_false_iff_ne] at hh
+  refine ⟨he, hh.2, hh.1, ?_, ?_⟩
+  · intro s' hs
+    unfold step at hs
+    split at hs
+    · simp at hs
+    · simp only [stepLive] at hs
+      split at hs
+      · rename_i k _
+        simp at hs; subst hs; exact ⟨k, by simp [he]⟩
+      · simp at hs
+  · intro s' hs
+    unfold step at hs
+    split at hs
+    · simp at hs
+    · simp only [stepLive, he] at hs
+      split at hs
+      · simp at hs; subst hs; rfl
+      · simp at hs
+
+/-- every error line the reader processes is recorded as due (`bad c`: reply to a command; `xbad`: pushed
+    by the device on its own) -/
+theorem C16_error_line_is_due (s s' : St) (r : Reply) (rs : List Reply) (ht : s.toHost = r :: rs)
+    (hb : r = .xbad ∨ ∃ c, r = .bad c) (hs : step s .lListen = some s') : s'.dueErr = true ∧ s'.err = true := by
+  unfold step at hs
+  split at hs
+  · simp at hs
+  · simp only [stepLive, ht] at hs
+    split at hs
+    · simp at hs
+    · simp at hs; subst hs
+      rcases hb with rfl | ⟨c, rfl⟩ <;> simp [hear]
+
+/-- **No spurious error**: a `write k` that raised had an error reply to statement k, or an unsolicited
+    error line had been read before, or the connection was lost. -/
+theorem C16_no_spurious_error (acts : List Act) (s : St) (hr : run {} acts = some s) (hb : s.backlog = false)
+    (hsp : s.surplusHit = false) :
+    ∀ p ∈ s.outcomes, p.2 = true → Cmd.stmt p.1 ∈ s.devBad ∨ s.anyXbad = true ∨ s.lost = true := by
+  have hi := (inv_run acts {} s orderInv_init wireInv_init sinv_init hr).2.2
   intro p hp hr
-  rcases (hi.2 hb).1 p hp with h | h
-  · exact Or.inl (h.2.1 hr)
-  · exact Or.inr h.1
+  rcases (hi.2 hb hsp).1 p hp with h | h
+  · rcases h.2.2 hr with h' | h'
+    · exact Or.inl h'
+    · exact Or.inr (Or.inl h')
+  · exact Or.inr (Or.inr h.1)
 
 /-- **connect() ends clean**: whenever `connect()` has returned (and between two statements), every
     command printcore or the caller sent has been answered and the answer read - nothing queued, nothing
-    on the wire, no terminal reply unread, no stored error, printcore idle. -/
+    on the wire, no terminal reply unread, printcore idle, and no stored error other than an unsolicited one. -/
 theorem C16_connect_clean (acts : List Act) (s : St) (hr : run {} acts = some s) (hb : s.backlog = false)
-    (hc : s.cphase = .connected) (hl : s.lost = false) (hw : s.wstate = .idle) :
-    s.priq = [] ∧ s.toDev = [] ∧ termOf s.toHost = [] ∧ s.err = false ∧ s.printing = false ∧ s.clear = true := by
-  have hi := (inv_run acts {} s orderInv_init sinv_init hr).2
-  obtain ⟨h1, h2, _, h4, _⟩ := ((hi.2 hb).2.2 hl).2.2 (Or.inl hc)
+    (hsp : s.surplusHit = false) (hc : s.cphase = .connected) (hl : s.lost = false) (hw : s.wstate = .idle) :
+    s.priq = [] ∧ s.toDev = [] ∧ termOf s.toHost = [] ∧ (s.err = true → s.anyXbad = true)
+    ∧ s.printing = false ∧ s.clear = true := by
+  have hi := (inv_run acts {} s orderInv_init wireInv_init sinv_init hr).2.2
+  obtain ⟨h1, h2, _, h4, _⟩ := ((hi.2 hb hsp).2.2 hl).2.2 (Or.inl hc)
   obtain ⟨a, b, c, _⟩ := h4 hw
   exact ⟨a, b.1, b.2, c, h1, h2⟩
 
 /-- **disconnect(wait=True)**: it finishes without raising only when nothing is pending (queue empty,
-    no print running, `clear`) - for a caller in any state, e.g. a second thread in `write`; and for the
-    sequential caller (idle, no backlog, connection alive) every queued statement has reached the device
-    and nothing is unanswered or unread. -/
+    no print running, `clear`) and no error line is left unraised - for a caller in any state, e.g. a
+    second thread in `write`; and for the sequential caller (idle, connection alive) every queued
+    statement has reached the device and nothing is unanswered or unread. -/
 theorem C16_disconnect_wait (acts : List Act) (s : St) (hr : run {} acts = some s)
-    (hd : s.cphase = .disconnected) :
-    (s.discRaised = false → s.priq = [] ∧ s.printing = false ∧ s.clear = true)
-    ∧ (s.backlog = false → s.lost = false → s.wstate = .idle →
+    (hd : s.cphase = .disconnected) (hnr : s.discRaised = false) :
+    (s.priq = [] ∧ s.printing = false ∧ s.clear = true ∧ s.dueErr = false)
+    ∧ (s.backlog = false → s.surplusHit = false → s.lost = false → s.wstate = .idle →
         s.priq = [] ∧ s.toDev = [] ∧ termOf s.toHost = [] ∧ stmtIds s.devLog = List.range s.next) := by
   have hdi := dInv_run acts {} s dInv_init hr
-  have hi := inv_run acts {} s orderInv_init sinv_init hr
-  refine ⟨fun hr' => ?_, fun hb hl hw => ?_⟩
-  · have := hdi hd hr'
+  have hei := eInv_run acts {} s eInv_init hr
+  have hi := inv_run acts {} s orderInv_init wireInv_init sinv_init hr
+  refine ⟨?_, fun hb hsp hl hw => ?_⟩
+  · have := hdi hd hnr
     simp only [pending, Bool.or_eq_false_iff, Bool.not_eq_false', List.isEmpty_iff] at this
-    exact ⟨by simpa using this.2, this.1.1, this.1.2⟩
-  · obtain ⟨_, _, _, h4, _⟩ := ((hi.2.2 hb).2.2 hl).2.2 (Or.inr hd)
+    refine ⟨by simpa using this.2, this.1.1, this.1.2, ?_⟩
+    cases hde : s.dueErr with
+    | false => rfl
+    | true =>
+      have := (hei hde).2
+      simp [halted, hd] at this
+  · obtain ⟨_, _, _, h4, _⟩ := ((hi.2.2.2 hb hsp).2.2 hl).2.2 (Or.inr ⟨hd, hnr⟩)
     obtain ⟨a, b, _, _⟩ := h4 hw
     refine ⟨a, b.1, b.2, ?_⟩
     have := hi.1.ids
@@ -125,8 +185,16 @@ theorem C16_disconnect_wait (acts : List Act) (s : St) (hr : run {} acts = some 
 /-! ## Witnesses (`decide` on executed runs) -/
 
 /-- the projection compared in the witnesses -/
-def C16_view (s : St) : List (Nat × Bool) × Bool × List Nat × List Cmd × CPhase :=
-  (s.outcomes, s.backlog, stmtIds s.devLog, s.toDev, s.cphase)
+structure C16_View where
+  outcomes : List (Nat × Bool)
+  backlog : Bool
+  surplusHit : Bool
+  received : List Nat
+  toDev : List Cmd
+  cphase : CPhase
+deriving DecidableEq, Repr
+
+def C16_view (s : St) : C16_View := ⟨s.outcomes, s.backlog, s.surplusHit, stmtIds s.devLog, s.toDev, s.cphase⟩
 
 /-- **Finding `C16-handshake-backlog`**: two probes pile up and are both answered later.  `connect()`
     returns with the second reset unanswered, and `write 0` completes (on that reset's `ok`) while the
@@ -135,23 +203,58 @@ example :
     (run {} [.lProbe, .lProbe, .dProcess [] false, .dProcess [] false, .lListen, .cOnline, .lListen,
              .pSendnext, .dProcess [] false, .lListen, .cPoll,
              .wClear, .wEnq, .sSend, .dProcess [] false, .lListen, .wWake, .wFinish]).map C16_view
-      = some ([(0, false)], true, [], [.stmt 0], .connected) := by decide
+      = some ⟨[(0, false)], true, false, [], [.stmt 0], .connected⟩ := by decide
 
 /-- the same defect with a single probe and a temperature report that brings printcore online first -/
 example :
     (run {} [.lProbe, .dProcess [true] false, .lListen, .cOnline, .lListen, .pSendnext,
              .dProcess [] false, .lListen, .cPoll,
              .wClear, .wEnq, .sSend, .dProcess [] false, .lListen, .wWake, .wFinish]).map C16_view
-      = some ([(0, false)], true, [], [.stmt 0], .connected) := by decide
+      = some ⟨[(0, false)], true, false, [], [.stmt 0], .connected⟩ := by decide
+
+/-- the clean connect prefix used below: one probe, both resets acknowledged -/
+def C16_connectActs : List Act :=
+  [.lProbe, .dProcess [] false, .lListen, .cOnline, .dProcess [] false, .lListen,
+   .pSendnext, .dProcess [] false, .lListen, .cPoll]
+
+/-- **Finding `C16-surplus-reply`**: statement 0 is answered `error…` then `ok`; the caller is already in
+    `write 1` (flag cleared, statement sent) when the trailing `ok` is read: `write 1` completes while the
+    device has not received statement 1. -/
+example :
+    (run {} (C16_connectActs ++
+            [.wClear, .wEnq, .sSend, .dProcess [] true, .dPush false, .lListen, .wWake, .wFinish,
+             .wClear, .wEnq, .sSend, .lListen, .wWake, .wFinish])).map C16_view
+      = some ⟨[(0, true), (1, false)], false, true, [0], [.stmt 1], .connected⟩ := by decide
+
+/-- the same two lines read before the caller starts `write 1` are harmless (`surplusHit` stays false; the
+    theorems apply): `write 1` waits for its own reply. -/
+example :
+    (run {} (C16_connectActs ++
+            [.wClear, .wEnq, .sSend, .dProcess [] true, .dPush false, .lListen, .wWake, .wFinish, .lListen,
+             .wClear, .wEnq, .sSend])).bind (fun s => (step s .wWake).map C16_view) = none
+    ∧ (run {} (C16_connectActs ++
+            [.wClear, .wEnq, .sSend, .dProcess [] true, .dPush false, .lListen, .wWake, .wFinish, .lListen,
+             .wClear, .wEnq, .sSend, .dProcess [] false, .lListen, .wWake, .wFinish])).map C16_view
+      = some ⟨[(0, true), (1, false)], false, false, [0, 1], [], .connected⟩ := by decide
+
+/-- an alarm pushed after statement 0 was acknowledged, read while the caller is idle, is raised by
+    `write 1` (after statement 1's own `ok`); read after the last statement it is raised by
+    `disconnect(wait=True)`. -/
+example :
+    (run {} (C16_connectActs ++
+            [.wClear, .wEnq, .sSend, .dProcess [] false, .lListen, .wWake, .wFinish, .dPush true, .lListen,
+             .wClear, .wEnq, .sSend, .dProcess [] false, .lListen, .wWake, .wFinish,
+             .dPush true, .lListen, .cDisc])).map (fun s => (C16_view s, s.discRaised, s.dueErr))
+      = some (⟨[(0, false), (1, true)], false, false, [0, 1], [], .disconnected⟩, true, false) := by decide
 
 /-- Non-vacuity: an ordinary session (one probe; statement 0 acknowledged after a status line, statement 1
-    answered with an error; `disconnect(wait=True)`) is a run with `backlog = false`. -/
+    answered with an error; `disconnect(wait=True)`) is a run with both ghost flags down. -/
 example :
     (run {} [.lProbe, .dProcess [] false, .lListen, .cOnline, .dProcess [false] false, .lListen, .lListen,
              .pSendnext, .dProcess [] false, .lListen, .cPoll,
              .wClear, .wEnq, .sSend, .dProcess [false] false, .lListen, .lListen, .wWake, .wFinish,
              .wClear, .wEnq, .sSend, .dProcess [] true, .lListen, .wWake, .wFinish, .cDisc]).map C16_view
-      = some ([(0, false), (1, true)], false, [0, 1], [], .disconnected) := by decide
+      = some ⟨[(0, false), (1, true)], false, false, [0, 1], [], .disconnected⟩ := by decide
 
 /-- Non-vacuity of `C16_sync_partial`'s hypotheses, and the acknowledgement set *before* `wait()` is
     reached (device faster than the caller) is not lost. -/
